@@ -48,6 +48,9 @@ class InterpBase(CtxMixin):
         self.func_stack = []
         self.fn_stack = []
         self.prove_hook = None
+        self.read_log = None
+        self.read_base = 0
+        self.reads_from = 0
         self.loop_birth = 0
         self.effects = None
         self.exc_stack = []
